@@ -49,6 +49,13 @@ def run(ctx, rep):
         rep.check("R3.3", "%s:cast-site" % vn, len(casts) >= 1, "no `as u8` conversion of the size found for Mode::%s" % vn, b.loc(), nontrivial=False)
         for (i, st) in oks:
             lv = an.value_at_exit(i, {"copy": {"l": 2, "p": []}})
+            if lv is None or lv[0] < 4 or lv[1] > want.get(vn, -1):
+                # what a helper established before it reported "fits" through a value of its own is lost at the join of its
+                # returns: decide path by path instead
+                pv = absint.per_path_values(b, mir, i, {"copy": {"l": 2, "p": []}}, assume_discr={"1.*": vi}, summaries=summ)
+                if pv is not None:
+                    lv = pv
+                    rep.notes.append("R3.3: Mode::%s: interval of len at Ok decided per path" % vn)
             rep.check("R3.3", "%s:min-length" % vn, lv is not None and lv[0] >= 4,
                       "Mode::%s: Ok is reachable with len in %s: a frame shorter than 4 bytes would be accepted" % (vn, lv), b.loc(st["line"]),
                       sample={"mode": vn, "len_interval_at_ok": [lv[0], min(lv[1], 2 ** 64)] if lv else None})
